@@ -130,8 +130,9 @@ type methodSpec struct {
 
 	pwViaCallback bool
 	pwErrOnCall   int // PasswordCallback returns an error on this call (1-based; 0: never)
+	pwList        []string // Setup B: the password returned on call 1, 2, … (the last one repeats)
 
-	kiMode int // 0 answers properly, 1 returns an error, 2 returns a wrong number of answers
+	kiMode int // 0 answers properly, 1 returns an error, 2 returns a wrong number of answers, 3 answers wrongly
 
 	signers     []*signerSpec
 	viaCallback bool // PublicKeysCallback
@@ -200,6 +201,9 @@ func (s *clientSpec) describe() map[string]any {
 		if m.name == "password" && m.pwErrOnCall > 0 {
 			d += fmt.Sprintf("/err-on-call-%d", m.pwErrOnCall)
 		}
+		if m.name == "password" && len(m.pwList) > 0 {
+			d += fmt.Sprintf("/passwords=%q", m.pwList)
+		}
 		if m.name == "keyboard-interactive" && m.kiMode != 0 {
 			d += fmt.Sprintf("/mode-%d", m.kiMode)
 		}
@@ -217,7 +221,7 @@ func (s *clientSpec) build(d *dlog) *ssh.ClientConfig {
 		var a ssh.AuthMethod
 		switch m.name {
 		case "password":
-			if m.pwViaCallback || m.pwErrOnCall > 0 {
+			if m.pwViaCallback || m.pwErrOnCall > 0 || len(m.pwList) > 1 {
 				calls := 0
 				a = ssh.PasswordCallback(func() (string, error) {
 					calls++
@@ -225,8 +229,13 @@ func (s *clientSpec) build(d *dlog) *ssh.ClientConfig {
 					if calls == m.pwErrOnCall {
 						return "", errAppCallback
 					}
+					if len(m.pwList) > 0 {
+						return m.pwList[min(calls, len(m.pwList))-1], nil
+					}
 					return fmt.Sprintf("pw-%d", calls), nil
 				})
+			} else if len(m.pwList) == 1 {
+				a = ssh.Password(m.pwList[0])
 			} else {
 				a = ssh.Password("pw-fixed")
 			}
@@ -242,6 +251,9 @@ func (s *clientSpec) build(d *dlog) *ssh.ClientConfig {
 				ans := make([]string, len(questions))
 				for i := range ans {
 					ans[i] = "answer:" + questions[i]
+					if m.kiMode == 3 {
+						ans[i] = "wrong"
+					}
 				}
 				return ans, nil
 			})
